@@ -2,7 +2,8 @@ import OpcuaModel.Model.NodeIdText
 /-
   Model of the NodeID string form (C04): `(*ua.NodeID).String`,
   `ua.ParseExpandedNodeID`, `ua.ParseNodeID`, `(*ua.NodeID).Equal`, statement
-  by statement.  The record mirrors the Go struct
+  by statement (state after the repair of C04.string-ns0-semicolon: a text
+  starting with "s=" is not split at ';').  The record mirrors the Go struct
 
       type NodeID struct { mask NodeIDType; ns uint16; nid uint32; bid []byte; gid *GUID }
 
@@ -136,9 +137,11 @@ def parseIdent (nsid : Nat) (nsu : Text) (idval : Text) : Option Expanded :=
 def parseExpanded (s : Text) (tbl : Option (List Text)) : Option Expanded :=
   if s = [] then some ⟨newTwoByte 0, [], 0⟩
   else
-    let p := match splitFirst 59 s with
-      | (a, none) => ([110, 115, 61, 48], a)
-      | (a, some b) => (a, b)
+    -- a text starting with "s=" has no namespace part (the identifier may contain ';')
+    let p := if [115, 61].isPrefixOf s then ([110, 115, 61, 48], s)
+      else match splitFirst 59 s with
+        | (a, none) => ([110, 115, 61, 48], a)
+        | (a, some b) => (a, b)
     match parseNs p.1 tbl with
     | none => none
     | some (nsid, nsu) => parseIdent nsid nsu p.2
@@ -183,11 +186,6 @@ def ident (n : NodeID) : Ident :=
 /-- same node: same namespace and same identifier; the numeric encoding
     (two-byte / four-byte / numeric) and the flag bits of the mask do not matter -/
 def SameNode (a b : NodeID) : Prop := a.ns = b.ns ∧ ident a = ident b
-
-/-- the finding's signature: a String id in namespace 0 whose text contains ';' -/
-def Defect (n : NodeID) : Prop := n.typ = 3 ∧ n.ns = 0 ∧ 59 ∈ n.bid
-
-instance (n : NodeID) : Decidable (Defect n) := by unfold Defect; infer_instance
 
 /-- what parsing the string form returns: the smallest numeric encoding, the
     flag bits cleared -/
